@@ -230,5 +230,5 @@ def teardown(ns, mon):
 
 def finish(agg, tier):
     c = agg["counters"]
-    return [f"zero-events:{k}" for k in ("im2col_calls", "col2im_calls", "adjoint_identities", "multiplicity_checks", "as_strided_calls",
+    return [f"zero-events:{k}" for k in ("im2col_calls", "col2im_calls", "adjoint_identities", "multiplicity_checks",
                                          "extract_windows_calls", "place_windows_calls", "empty_geometry_probes") if not c.get(k)]
